@@ -634,21 +634,35 @@ func (c *Collection) setLastCas(txn *sql.Tx, cas CAS) (err error) {
 // document being modified. The function returns an event to be posted.
 func (c *Collection) withNewCas(fn func(txn *sql.Tx, newCas CAS) (*event, error)) error {
 	var e *event
-	err := c.bucket.inTransaction(func(txn *sql.Tx) error {
-		newCas := uint64(hlc.Now())
-		var err error
-		e, err = fn(txn, newCas)
-		if err != nil {
-			return err
+	err := c.bucket.inPostOrder(func() error {
+		err := c.bucket.inTransaction(func(txn *sql.Tx) error {
+			newCas := uint64(hlc.Now())
+			var err error
+			e, err = fn(txn, newCas)
+			if err != nil {
+				return err
+			}
+			verifPoint("cas.between")
+			return c.setLastCas(txn, newCas)
+		})
+		if err == nil && e != nil {
+			verifPoint("event.prepost")
+			c.postNewEvent(e)
 		}
-		verifPoint("cas.between")
-		return c.setLastCas(txn, newCas)
+		return err
 	})
 	if err == nil && e != nil {
-		verifPoint("event.prepost")
-		c.postNewEvent(e)
+		c.bucket.expManager.scheduleExpirationAtOrBefore(e.exp)
 	}
 	return err
+}
+
+// inPostOrder runs a write (transaction + posting of its event) while holding the bucket's postMutex, so that
+// events are posted to feeds in the order their transactions committed, i.e. in CAS order.
+func (bucket *Bucket) inPostOrder(fn func() error) error {
+	bucket.postMutex.Lock()
+	defer bucket.postMutex.Unlock()
+	return fn()
 }
 
 var (
